@@ -42,9 +42,10 @@ func (s Spec) p(name string, def int) int {
 
 // CompObs is what was seen of one component instance in a run.
 type CompObs struct {
-	Comp string   `json:"comp"` // model component: producer | pcons | group | offsets | client | broker
-	Cfg  []int64  `json:"cfg"`  // model configuration vector (meaning per component, see emit.go)
-	Obs  []string `json:"obs"`  // linearised observable events (labels of the model)
+	Comp     string   `json:"comp"`     // model component: producer | pcons | group | offsets | client | broker
+	Cfg      []int64  `json:"cfg"`      // model configuration vector (meaning per component, see coq/C12/Corr.v)
+	Obs      []string `json:"obs"`      // linearised observable events: "Call f" | "Ret f r" | "Ev ch" | "Closed ch"
+	Complete bool     `json:"complete"` // observed to the end (completeness conditions of the model apply)
 }
 
 // Result of a run.
@@ -71,6 +72,7 @@ type runCtx struct {
 	notes    []string
 	events   int32
 	closedAt int32
+	armed    int32
 	trig     chan struct{} // closed when the k-th event happened (or the settle timer fired)
 	trigOnce sync.Once
 	invoked  chan struct{} // closed when the harness has invoked Close/AsyncClose
@@ -81,10 +83,15 @@ type runCtx struct {
 
 func newRunCtx(s Spec) *runCtx {
 	rc := &runCtx{spec: s, trig: make(chan struct{}), invoked: make(chan struct{}), t0: time.Now()}
-	if s.K <= 0 {
+	return rc
+}
+
+// arm: the component under test exists now; observable events are counted from here on.
+func (rc *runCtx) arm() {
+	atomic.StoreInt32(&rc.armed, 1)
+	if rc.spec.K <= 0 {
 		rc.fire()
 	}
-	return rc
 }
 
 func (rc *runCtx) fire() {
@@ -98,8 +105,18 @@ func (rc *runCtx) fire() {
 func (rc *runCtx) markInvoked() { rc.invOnce.Do(func() { close(rc.invoked) }) }
 
 // afterInvoked returns a gate that opens d after Close was invoked (or after 2 s, whichever is first).
+// Holding an answer means the scenario has reached its "mid-request" point: if the k-th event has not
+// happened yet it cannot happen before the answer, so the close is injected now (after a short pause in
+// which the client is certainly waiting for the answer).
 func (rc *runCtx) afterInvoked(d time.Duration) <-chan struct{} {
 	g := make(chan struct{})
+	go func() {
+		select {
+		case <-rc.trig:
+		case <-time.After(15 * time.Millisecond):
+			rc.fire()
+		}
+	}()
 	go func() {
 		select {
 		case <-rc.invoked:
@@ -114,6 +131,9 @@ func (rc *runCtx) afterInvoked(d time.Duration) <-chan struct{} {
 // event counts one observable event (request received by a mock broker, message or error delivered to
 // the application) and fires the Close trigger at the k-th one.
 func (rc *runCtx) event(kind string) {
+	if atomic.LoadInt32(&rc.armed) == 0 {
+		return
+	}
 	n := atomic.AddInt32(&rc.events, 1)
 	if int(n) == rc.spec.K {
 		rc.fire()
@@ -122,6 +142,9 @@ func (rc *runCtx) event(kind string) {
 }
 
 func (rc *runCtx) request(broker int32, kind string) {
+	if atomic.LoadInt32(&rc.armed) == 0 {
+		return
+	}
 	rc.mu.Lock()
 	if len(rc.reqLog) < 200 {
 		rc.reqLog = append(rc.reqLog, fmt.Sprintf("b%d:%s", broker, strings.TrimSuffix(kind, "Request")))
@@ -283,3 +306,13 @@ func (q quietT) Error(a ...interface{})            { q.rc.note("mock: %s", fmt.S
 func (q quietT) Errorf(f string, a ...interface{}) { q.rc.note("mock: "+f, a...) }
 func (q quietT) Fatal(a ...interface{})            { q.rc.note("mock fatal: %s", fmt.Sprint(a...)) }
 func (q quietT) Fatalf(f string, a ...interface{}) { q.rc.note("mock fatal: "+f, a...) }
+
+func (res *Result) finish(rc *runCtx) {
+	res.Events = int(atomic.LoadInt32(&rc.events))
+	res.ClosedAt = int(atomic.LoadInt32(&rc.closedAt))
+	rc.mu.Lock()
+	res.Failures = append([]Failure(nil), rc.fails...)
+	res.Notes = append(append([]string(nil), rc.notes...), fmt.Sprintf("requests=%v", rc.reqLog))
+	rc.mu.Unlock()
+	res.Millis = time.Since(rc.t0).Milliseconds()
+}
